@@ -46,8 +46,21 @@ Proof.
 Qed.
 
 (* ---------------------------------------------------------------- history functions *)
-Lemma queried_snoc h o n : queried (h ++ [o]) n = queried h n || asks o n.
-Proof. unfold queried. rewrite existsb_app. simpl. rewrite orb_false_r. reflexivity. Qed.
+Lemma hq_snoc h o n : hq (h ++ [o]) n = hq_step n (hq h n) o.
+Proof. unfold hq. rewrite fold_left_app. reflexivity. Qed.
+
+Lemma queried_snoc h o n : queried (h ++ [o]) n = queried h n || (asks o n && negb (hidden h n)).
+Proof. unfold queried, hidden. rewrite hq_snoc. reflexivity. Qed.
+
+Definition hides (o : op) (n : Z) (b : bool) : bool :=
+  match o with
+  | OHide m => if Z.eqb m n then true else b
+  | OShow m => if Z.eqb m n then false else b
+  | _ => b
+  end.
+
+Lemma hidden_snoc h o n : hidden (h ++ [o]) n = hides o n (hidden h n).
+Proof. unfold hidden. rewrite hq_snoc. destruct o; reflexivity. Qed.
 
 Lemma reported_snoc h o n : reported (h ++ [o]) n = reported h n || reports o n.
 Proof. unfold reported. rewrite existsb_app. simpl. rewrite orb_false_r. reflexivity. Qed.
@@ -226,31 +239,37 @@ Proof. intro G. apply aget_in in G. unfold akeys. apply in_map_iff. exists (n, v
 (* ---- queryRetire + ack ---- *)
 Lemma query_one_spec cfg s q rep k :
   SV cfg (svcs s) (sup s) q rep ->
-  SV cfg (svcs (fst (query_one cfg s k))) (sup (fst (query_one cfg s k))) (fun n => q n || Z.eqb k n) rep
-  /\ nst (fst (query_one cfg s k)) = nst s /\ pend (fst (query_one cfg s k)) = pend s.
+  SV cfg (svcs (fst (query_one cfg s k))) (sup (fst (query_one cfg s k)))
+     (fun n => q n || (Z.eqb k n && negb (zmem k (hid s)))) rep
+  /\ nst (fst (query_one cfg s k)) = nst s /\ pend (fst (query_one cfg s k)) = pend s
+  /\ hid (fst (query_one cfg s k)) = hid s.
 Proof.
-  intro I. pose proof (sv_view _ _ _ _ _ I k) as G. unfold query_one.
-  assert (Same : answers_ok cfg k = false ->
-          SV cfg (svcs s) (sup s) (fun n => q n || Z.eqb k n) rep).
+  intro I. pose proof (sv_view _ _ _ _ _ I k) as G. unfold query_one, resolvable.
+  assert (Same : answers_ok cfg k && negb (zmem k (hid s)) = false ->
+          SV cfg (svcs s) (sup s) (fun n => q n || (Z.eqb k n && negb (zmem k (hid s)))) rep).
   { intro A. eapply SV_ext; [exact I | | reflexivity]. intros n _.
-    destruct (Z.eqb_spec k n) as [<-|N]; [rewrite A; reflexivity | rewrite orb_false_r; reflexivity]. }
+    destruct (Z.eqb_spec k n) as [<-|N]; [|rewrite orb_false_r; reflexivity].
+    simpl. apply andb_false_iff in A. destruct A as [A|A]; rewrite A; simpl;
+      [reflexivity | rewrite orb_false_r; reflexivity]. }
   destruct (hosted cfg k) eqn:H.
-  - rewrite G. unfold hv. destruct (present cfg k) eqn:P.
-    + destruct (answers_ok cfg k) eqn:A; simpl; [|auto].
-      split; [|auto].
-      assert (V' : view cfg (aset k (if rep k then Retired else Working, true) (svcs s))
-                     (hv cfg (fun n => q n || Z.eqb k n) rep)).
-      { eapply view_ext; [apply view_aset; [exact (sv_view _ _ _ _ _ I) | exact H]|].
-        intros n _. cbn beta. unfold hv. destruct (Z.eqb_spec n k) as [->|N].
-        - rewrite A, Z.eqb_refl, orb_true_r. reflexivity.
-        - destruct (Z.eqb_spec k n) as [E|_]; [congruence|]. rewrite orb_false_r. reflexivity. }
-      assert (S' : sorted (aset k (if rep k then Retired else Working, true) (svcs s))).
-      { apply sorted_aset. exact (sv_sorted _ _ _ _ _ I). }
-      split; [exact S' | exact V' |].
-      unfold all_support.
-      rewrite (forallb_view cfg _ _ (fun x => snd x) S' V'). unfold support_of.
-      rewrite (hosted_not_nil _ _ H). reflexivity.
-    + simpl. split; [|auto]. apply Same.
+  - rewrite G. unfold hv. destruct (present cfg k) eqn:P; simpl.
+    + destruct (zmem k (hid s)) eqn:Z; simpl.
+      * split; [|auto]. apply Same. apply andb_false_r.
+      * destruct (answers_ok cfg k) eqn:A; simpl; [|split; [apply Same; reflexivity | auto]].
+        split; [|auto].
+        assert (V' : view cfg (aset k (if rep k then Retired else Working, true) (svcs s))
+                       (hv cfg (fun n => q n || (Z.eqb k n && true)) rep)).
+        { eapply view_ext; [apply view_aset; [exact (sv_view _ _ _ _ _ I) | exact H]|].
+          intros n _. cbn beta. unfold hv. destruct (Z.eqb_spec n k) as [->|N].
+          - rewrite A, Z.eqb_refl, orb_true_r. reflexivity.
+          - destruct (Z.eqb_spec k n) as [E|_]; [congruence|]. rewrite orb_false_r. reflexivity. }
+        assert (S' : sorted (aset k (if rep k then Retired else Working, true) (svcs s))).
+        { apply sorted_aset. exact (sv_sorted _ _ _ _ _ I). }
+        split; [exact S' | exact V' |].
+        unfold all_support.
+        rewrite (forallb_view cfg _ _ (fun x => snd x) S' V'). unfold support_of.
+        rewrite (hosted_not_nil _ _ H). reflexivity.
+    + split; [|auto]. apply Same.
       destruct (answers_ok cfg k) eqn:A; [|reflexivity].
       apply answers_ok_present in A. congruence.
   - rewrite G. simpl. split; [|auto]. apply Same.
@@ -259,18 +278,22 @@ Qed.
 
 Lemma query_list_spec cfg l : forall s q rep,
   SV cfg (svcs s) (sup s) q rep ->
-  SV cfg (svcs (fst (query_list cfg s l))) (sup (fst (query_list cfg s l))) (fun n => q n || zmem n l) rep
-  /\ nst (fst (query_list cfg s l)) = nst s /\ pend (fst (query_list cfg s l)) = pend s.
+  SV cfg (svcs (fst (query_list cfg s l))) (sup (fst (query_list cfg s l)))
+     (fun n => q n || (zmem n l && negb (zmem n (hid s)))) rep
+  /\ nst (fst (query_list cfg s l)) = nst s /\ pend (fst (query_list cfg s l)) = pend s
+  /\ hid (fst (query_list cfg s l)) = hid s.
 Proof.
   induction l as [|k r IH]; intros s q rep I; simpl.
   - split; [|auto]. eapply SV_ext; [exact I | | reflexivity]. intros n _. rewrite orb_false_r. reflexivity.
-  - destruct (query_one_spec cfg s q rep k I) as [I1 [N1 P1]].
+  - destruct (query_one_spec cfg s q rep k I) as [I1 [N1 [P1 H1]]].
     destruct (query_one cfg s k) as [s1 o1]. simpl in *.
-    destruct (IH s1 _ rep I1) as [I2 [N2 P2]].
+    destruct (IH s1 _ rep I1) as [I2 [N2 [P2 H2]]].
     destruct (query_list cfg s1 r) as [s2 o2]. simpl in *.
-    split; [|split; congruence].
-    eapply SV_ext; [exact I2 | | reflexivity]. intros n _. f_equal.
-    unfold zmem. simpl. rewrite (Z.eqb_sym n k). rewrite orb_assoc. reflexivity.
+    split; [|repeat split; congruence].
+    eapply SV_ext; [exact I2 | | reflexivity]. intros n _. f_equal. rewrite H1.
+    change (zmem n (k :: r)) with (Z.eqb n k || zmem n r). rewrite (Z.eqb_sym n k).
+    destruct (Z.eqb_spec k n) as [E|N]; [subst k|];
+      destruct (q n), (zmem n r), (zmem n (hid s)); reflexivity.
 Qed.
 
 (* ---- onServiceRetired ---- *)
@@ -309,7 +332,8 @@ Record Inv (cfg : config) (h : list op) (s : state) (tr : list obs) : Prop := {
   i_pend : (pend s <= 1)%nat;
   i_pend1 : pend s = 1%nat -> nst s = Exiting;
   i_stops : stops tr = if 4 <=? rank (nst s) then 1%nat else 0%nat;
-  i_mono : mono_from Working (pubs tr) = true
+  i_mono : mono_from Working (pubs tr) = true;
+  i_hid : forall n, zmem n (hid s) = hidden h n
 }.
 
 Lemma inv_init cfg : Inv cfg [] (init cfg) [].
@@ -322,11 +346,12 @@ Proof.
   - simpl. discriminate.
   - reflexivity.
   - reflexivity.
+  - reflexivity.
 Qed.
 
 Lemma SV_hist cfg m sp h o :
   SV cfg m sp (queried h) (reported h) ->
-  (forall n, hosted cfg n = true -> answers_ok cfg n && asks o n = false) ->
+  (forall n, hosted cfg n = true -> answers_ok cfg n && (asks o n && negb (hidden h n)) = false) ->
   (forall n, hosted cfg n = true -> reports o n = false) ->
   SV cfg m sp (queried (h ++ [o])) (reported (h ++ [o])).
 Proof.
@@ -354,24 +379,28 @@ Lemma inv_intro cfg h s tr o s' b :
   (pend s' <= 1)%nat ->
   (pend s' = 1%nat -> nst s' = Exiting) ->
   (stops tr + stops_ob b)%nat = (if 4 <=? rank (nst s') then 1%nat else 0%nat) ->
+  (forall n, zmem n (hid s') = hides o n (zmem n (hid s))) ->
   Inv cfg (h ++ [o]) s' (tr ++ [b]).
 Proof.
-  intros I V N M R P P1 St. split; try assumption.
+  intros I V N M R P P1 St Hd. split; try assumption.
   - rewrite last_pub_snoc, <- (i_nst _ _ _ _ I). exact N.
   - rewrite stops_snoc. exact St.
   - rewrite pubs_snoc, mono_from_app, (i_mono _ _ _ _ I). simpl.
     change (last (pubs tr) Working) with (last_pub tr). rewrite <- (i_nst _ _ _ _ I). exact M.
+  - intro n. rewrite hidden_snoc, Hd, (i_hid _ _ _ _ I). reflexivity.
 Qed.
 
-(* state unchanged, nothing published, nothing a hosted service said *)
-Lemma inv_same cfg h s tr o b :
+(* nothing published, nothing a hosted service said; only the hidden set may change *)
+Lemma inv_same cfg h s tr o b s' :
   Inv cfg h s tr -> evs_of b = [] ->
-  (forall n, hosted cfg n = true -> answers_ok cfg n && asks o n = false) ->
+  nst s' = nst s -> svcs s' = svcs s -> sup s' = sup s -> pend s' = pend s ->
+  (forall n, zmem n (hid s') = hides o n (zmem n (hid s))) ->
+  (forall n, hosted cfg n = true -> answers_ok cfg n && (asks o n && negb (hidden h n)) = false) ->
   (forall n, hosted cfg n = true -> reports o n = false) ->
-  Inv cfg (h ++ [o]) s (tr ++ [b]).
+  Inv cfg (h ++ [o]) s' (tr ++ [b]).
 Proof.
-  intros I E A R. destruct b as [r evs sends]. simpl in E. subst evs.
-  apply (inv_intro cfg h s tr o s _ I); simpl.
+  intros I E En Es Eu Ep Hd A R. destruct b as [r evs sends]. simpl in E. subst evs.
+  apply (inv_intro cfg h s tr o s' _ I); simpl; rewrite ?En, ?Es, ?Eu, ?Ep.
   - apply SV_hist; [exact (i_sv _ _ _ _ I) | exact A | exact R].
   - reflexivity.
   - reflexivity.
@@ -379,11 +408,13 @@ Proof.
   - exact (i_pend _ _ _ _ I).
   - exact (i_pend1 _ _ _ _ I).
   - unfold stops_ob. simpl. rewrite Nat.add_0_r. exact (i_stops _ _ _ _ I).
+  - exact Hd.
 Qed.
 
 (* a transition that only moves nst/pend: same services, same sup, op says nothing about services *)
 Lemma inv_move cfg h s tr o s' b :
-  Inv cfg h s tr -> svcs s' = svcs s -> sup s' = sup s ->
+  Inv cfg h s tr -> svcs s' = svcs s -> sup s' = sup s -> hid s' = hid s ->
+  (forall n b0, hides o n b0 = b0) ->
   (forall n, asks o n = false) -> (forall n, reports o n = false) ->
   nst s' = last (pubs_ob b) (nst s) ->
   mono_from (nst s) (pubs_ob b) = true ->
@@ -393,20 +424,30 @@ Lemma inv_move cfg h s tr o s' b :
   (stops tr + stops_ob b)%nat = (if 4 <=? rank (nst s') then 1%nat else 0%nat) ->
   Inv cfg (h ++ [o]) s' (tr ++ [b]).
 Proof.
-  intros I Es Eu A R N M R3 P P1 St.
+  intros I Es Eu Eh Hd A R N M R3 P P1 St.
   apply (inv_intro cfg h s tr o s' b I); try assumption.
   - rewrite Es, Eu. apply SV_hist; [exact (i_sv _ _ _ _ I) | |].
     + intros n _. rewrite A. apply andb_false_r.
     + intros n _. apply R.
   - rewrite R3, all_reported_same by (intros n _; apply R). exact (i_ret _ _ _ _ I).
+  - intro n. rewrite Eh, Hd. reflexivity.
+Qed.
+
+Lemma service_retired_hid s k : hid (fst (service_retired s k)) = hid s.
+Proof.
+  unfold service_retired. destruct (aget k (svcs s)) as [[st sp]|]; [|reflexivity].
+  destruct (all_retired _ && _); reflexivity.
 Qed.
 
 Lemma inv_retired cfg h s tr k o r :
   (forall n, reports o n = Z.eqb k n) -> (forall n, asks o n = false) ->
+  (forall n b0, hides o n b0 = b0) ->
   Inv cfg h s tr ->
   Inv cfg (h ++ [o]) (fst (service_retired s k)) (tr ++ [Ob r (snd (service_retired s k)) []]).
 Proof.
-  intros Rp As I.
+  intros Rp As Hd I.
+  assert (HD : forall n, zmem n (hid (fst (service_retired s k))) = hides o n (zmem n (hid s))).
+  { intro n. rewrite service_retired_hid, Hd. reflexivity. }
   destruct (service_retired_spec cfg s _ _ k (i_sv _ _ _ _ I)) as [V [P C]].
   assert (AR : forallb (fun n => reported h n || Z.eqb k n) (names cfg) = all_reported cfg (h ++ [o])).
   { unfold all_reported. apply forallb_ext_in. intros n _. rewrite reported_snoc, Rp. reflexivity. }
@@ -414,7 +455,7 @@ Proof.
   assert (V' : SV cfg (svcs (fst (service_retired s k))) (sup (fst (service_retired s k)))
                   (queried (h ++ [o])) (reported (h ++ [o]))).
   { eapply SV_ext; [exact V | |].
-    - intros n _. rewrite queried_snoc, As, orb_false_r. reflexivity.
+    - intros n _. rewrite queried_snoc, As. simpl. rewrite orb_false_r. reflexivity.
     - intros n _. rewrite reported_snoc, Rp. reflexivity. }
   pose proof (i_ret _ _ _ _ I) as R3. pose proof (i_pend _ _ _ _ I) as Pe.
   pose proof (i_pend1 _ _ _ _ I) as Pe1. pose proof (i_stops _ _ _ _ I) as St.
@@ -422,7 +463,7 @@ Proof.
   - destruct C as [N E]. rewrite E.
     apply andb_true_iff in Cond. destruct Cond as [Cond Lt]. apply andb_true_iff in Cond.
     destruct Cond as [Hk All].
-    apply (inv_intro cfg h s tr o _ _ I); try exact V'; unfold pubs_ob, stops_ob; simpl; rewrite ?N.
+    apply (inv_intro cfg h s tr o _ _ I); try exact V'; try exact HD; unfold pubs_ob, stops_ob; simpl; rewrite ?N.
     + reflexivity.
     + rewrite andb_true_r. change (rank Retired) with 3. lia.
     + rewrite All, (hosted_not_nil _ _ Hk). reflexivity.
@@ -430,7 +471,7 @@ Proof.
     + rewrite P. intro Q. apply Pe1 in Q. rewrite Q in Lt. discriminate.
     + rewrite St. destruct (4 <=? rank (nst s)) eqn:G; [lia | reflexivity].
   - destruct C as [N E]. rewrite E.
-    apply (inv_intro cfg h s tr o _ _ I); try exact V'; unfold pubs_ob, stops_ob; simpl; rewrite ?N, ?P;
+    apply (inv_intro cfg h s tr o _ _ I); try exact V'; try exact HD; unfold pubs_ob, stops_ob; simpl; rewrite ?N, ?P;
       try assumption; try reflexivity.
     + destruct (hosted cfg k) eqn:Hk.
       * pose proof (hosted_not_nil _ _ Hk) as Nn. rewrite Nn in R3 |- *. simpl in R3 |- *.
@@ -443,6 +484,36 @@ Proof.
     + rewrite Nat.add_0_r. exact St.
 Qed.
 
+Lemma inv_quiet cfg h s tr o b :
+  Inv cfg h s tr -> evs_of b = [] ->
+  (forall n b0, hides o n b0 = b0) -> (forall n, asks o n = false) -> (forall n, reports o n = false) ->
+  Inv cfg (h ++ [o]) s (tr ++ [b]).
+Proof.
+  intros I E Hd A R. apply (inv_same cfg h s tr o b s I E); try reflexivity.
+  - intro n. rewrite Hd. reflexivity.
+  - intros n _. rewrite A. apply andb_false_r.
+  - intros n _. apply R.
+Qed.
+
+Lemma zmem_hide k l n : zmem n (if zmem k l then l else k :: l) = if Z.eqb k n then true else zmem n l.
+Proof.
+  destruct (Z.eqb_spec k n) as [->|N].
+  - destruct (zmem n l) eqn:Z; [exact Z|]. unfold zmem. simpl. rewrite Z.eqb_refl. reflexivity.
+  - destruct (zmem k l); [reflexivity|]. unfold zmem. simpl.
+    destruct (Z.eqb_spec n k) as [E|_]; [congruence | reflexivity].
+Qed.
+
+Lemma zmem_show k l n :
+  zmem n (filter (fun x => negb (Z.eqb x k)) l) = if Z.eqb k n then false else zmem n l.
+Proof.
+  unfold zmem. induction l as [|x r IH]; simpl; [destruct (Z.eqb k n); reflexivity|].
+  destruct (Z.eqb_spec x k) as [->|Nx]; simpl.
+  - rewrite IH. destruct (Z.eqb_spec k n) as [->|N]; [reflexivity|].
+    destruct (Z.eqb_spec n k) as [E|_]; [congruence | reflexivity].
+  - rewrite IH. destruct (Z.eqb_spec k n) as [->|N]; [|reflexivity].
+    destruct (Z.eqb_spec n x) as [E|_]; [congruence | reflexivity].
+Qed.
+
 Lemma inv_step cfg h s tr o :
   Inv cfg h s tr -> Inv cfg (h ++ [o]) (fst (step cfg s o)) (tr ++ [snd (step cfg s o)]).
 Proof.
@@ -450,7 +521,7 @@ Proof.
   pose proof (i_pend _ _ _ _ I) as Pe. pose proof (i_pend1 _ _ _ _ I) as Pe1.
   pose proof (i_stops _ _ _ _ I) as St.
   assert (Quiet : forall c b, evs_of b = [] -> Inv cfg (h ++ [OCmd c]) s (tr ++ [b])).
-  { intros c b E. apply inv_same; [exact I | exact E | |]; intros n _; [apply andb_false_r | reflexivity]. }
+  { intros c b E. apply inv_quiet; [exact I | exact E | | |]; reflexivity. }
   assert (Retire : forall c, (c = CRetire \/ c = CWebRetire) ->
             Inv cfg (h ++ [OCmd c]) (fst (do_retire cfg s)) (tr ++ [snd (do_retire cfg s)])).
   { intros c _. unfold do_retire.
@@ -468,45 +539,54 @@ Proof.
     { destruct (pend s) as [|[|p]]; [reflexivity | | lia]. specialize (Pe1 eq_refl). congruence. }
     apply (inv_move cfg h s tr); simpl; rewrite ?N, ?P0; try reflexivity; try lia; try exact I.
     unfold stops_ob. simpl. rewrite St. reflexivity. }
-  destruct o as [c| |k|k sc|k|succ].
+  destruct o as [c| |k|k sc|k|succ|k|k].
   - destruct c; simpl; try (apply Quiet; reflexivity); auto.
   - (* query all *)
-    simpl. destruct (query_list_spec cfg (akeys (svcs s)) s _ _ (i_sv _ _ _ _ I)) as [V [N P]].
+    simpl. destruct (query_list_spec cfg (akeys (svcs s)) s _ _ (i_sv _ _ _ _ I)) as [V [N [P Hd]]].
     destruct (query_list cfg s (akeys (svcs s))) as [s1 snd1]. simpl in *.
-    apply (inv_intro cfg h s tr OQueryAll s1 _ I); unfold pubs_ob, stops_ob; simpl; rewrite ?N, ?P;
+    apply (inv_intro cfg h s tr OQueryAll s1 _ I); unfold pubs_ob, stops_ob; simpl; rewrite ?N, ?P, ?Hd;
       try assumption; try reflexivity.
     + eapply SV_ext; [exact V | |].
       * intros n Hn. rewrite queried_snoc. simpl. f_equal.
         pose proof (sv_view _ _ _ _ _ (i_sv _ _ _ _ I) n) as G. rewrite Hn in G.
-        apply aget_some_keys in G. apply zmem_In in G. rewrite G, !orb_true_r. reflexivity.
+        apply aget_some_keys in G. apply zmem_In in G. rewrite G, (i_hid _ _ _ _ I). reflexivity.
       * intros n _. rewrite reported_snoc. simpl. rewrite orb_false_r. reflexivity.
     + rewrite all_reported_same by reflexivity. exact (i_ret _ _ _ _ I).
     + rewrite Nat.add_0_r. exact St.
   - (* query one *)
-    simpl. destruct (query_one_spec cfg s _ _ k (i_sv _ _ _ _ I)) as [V [N P]].
+    simpl. destruct (query_one_spec cfg s _ _ k (i_sv _ _ _ _ I)) as [V [N [P Hd]]].
     destruct (query_one cfg s k) as [s1 snd1]. simpl in *.
-    apply (inv_intro cfg h s tr (OQuery k) s1 _ I); unfold pubs_ob, stops_ob; simpl; rewrite ?N, ?P;
+    apply (inv_intro cfg h s tr (OQuery k) s1 _ I); unfold pubs_ob, stops_ob; simpl; rewrite ?N, ?P, ?Hd;
       try assumption; try reflexivity.
     + eapply SV_ext; [exact V | |].
-      * intros n _. rewrite queried_snoc. reflexivity.
+      * intros n _. rewrite queried_snoc. simpl. f_equal. f_equal.
+        destruct (Z.eqb_spec k n) as [->|_]; [|reflexivity]. rewrite (i_hid _ _ _ _ I). reflexivity.
       * intros n _. rewrite reported_snoc. simpl. rewrite orb_false_r. reflexivity.
     + rewrite all_reported_same by reflexivity. exact (i_ret _ _ _ _ I).
     + rewrite Nat.add_0_r. exact St.
   - destruct sc; simpl.
     + pose proof (inv_retired cfg h s tr k (OSvcCmd k SRetired) ROk) as L.
-      destruct (service_retired s k) as [s1 evs]. apply L; [reflexivity | reflexivity | exact I].
-    + apply inv_same; [exact I | reflexivity | |]; intros n _; [apply andb_false_r | reflexivity].
+      destruct (service_retired s k) as [s1 evs]. apply L; [reflexivity | reflexivity | reflexivity | exact I].
+    + apply inv_quiet; [exact I | | | |]; reflexivity.
   - simpl. pose proof (inv_retired cfg h s tr k (ONotify k) RNone) as L.
-    destruct (service_retired s k) as [s1 evs]. apply L; [reflexivity | reflexivity | exact I].
+    destruct (service_retired s k) as [s1 evs]. apply L; [reflexivity | reflexivity | reflexivity | exact I].
   - (* stop done *)
     simpl. destruct (pend s) as [|p] eqn:P.
-    + apply inv_same; [exact I | reflexivity | |]; intros n _; [apply andb_false_r | reflexivity].
+    + apply inv_quiet; [exact I | | | |]; reflexivity.
     + assert (p = 0%nat) by lia. subst p. specialize (Pe1 eq_refl).
       destruct succ; simpl.
       * apply (inv_move cfg h s tr); simpl; rewrite ?Pe1; try reflexivity; try lia; try exact I.
         unfold stops_ob. simpl. rewrite St, Pe1. reflexivity.
       * apply (inv_move cfg h s tr); simpl; rewrite ?Pe1; try reflexivity; try lia; try exact I.
         unfold stops_ob. simpl. rewrite St, Pe1. reflexivity.
+  - (* hide *)
+    simpl. apply (inv_same cfg h s tr (OHide k) _ _ I); try reflexivity.
+    + intro n. simpl. apply zmem_hide.
+    + intros n _. apply andb_false_r.
+  - (* show *)
+    simpl. apply (inv_same cfg h s tr (OShow k) _ _ I); try reflexivity.
+    + intro n. simpl. apply zmem_show.
+    + intros n _. apply andb_false_r.
 Qed.
 
 Lemma inv_final cfg h : Inv cfg h (final cfg h) (run cfg h).
@@ -544,10 +624,10 @@ Proof. destruct l; simpl; split; intro H; try reflexivity; discriminate. Qed.
 
 (* ---------------------------------------------------------------- retire *)
 Lemma obs_at_retire cfg h o : is_retire_cmd o = true -> obs_at cfg h o = snd (do_retire cfg (final cfg h)).
-Proof. destruct o as [[]| | | | |]; simpl; try discriminate; reflexivity. Qed.
+Proof. destruct o as [[]| | | | | | |]; simpl; try discriminate; reflexivity. Qed.
 
 Lemma obs_at_exit cfg h o : is_exit_cmd o = true -> obs_at cfg h o = snd (do_exit (final cfg h)).
-Proof. destruct o as [[]| | | | |]; simpl; try discriminate; reflexivity. Qed.
+Proof. destruct o as [[]| | | | | | |]; simpl; try discriminate; reflexivity. Qed.
 
 Lemma retire_accept_iff cfg h o :
   is_retire_cmd o = true ->
@@ -576,28 +656,45 @@ Lemma retire_guard cfg h o :
   forall n, hosted cfg n = true -> declared cfg h n = true.
 Proof. intros R A. apply (retire_accept_iff cfg h o R) in A. tauto. Qed.
 
-Lemma in_retire_sends cfg n : In n (names cfg) -> present cfg n = true -> In (n, KRetire) (retire_sends cfg).
+Lemma in_retire_sends cfg s n :
+  In n (names cfg) -> resolvable cfg s n = true -> In (n, KRetire) (retire_sends cfg s).
 Proof.
   intros I P. unfold retire_sends. apply in_flat_map. exists n. split; [exact I|]. rewrite P. left. reflexivity.
 Qed.
 
-Lemma retire_sends_only cfg x : In x (retire_sends cfg) -> snd x = KRetire /\ hosted cfg (fst x) = true.
+Lemma retire_sends_only cfg s x :
+  In x (retire_sends cfg s) ->
+  snd x = KRetire /\ hosted cfg (fst x) = true /\ zmem (fst x) (hid s) = false.
 Proof.
   unfold retire_sends. rewrite in_flat_map. intros [n [I J]].
-  destruct (present cfg n); [|contradiction]. destruct J as [<-|[]]. simpl. split; [reflexivity|].
-  apply hosted_names. exact I.
+  destruct (resolvable cfg s n) eqn:R; [|contradiction]. destruct J as [<-|[]]. simpl.
+  unfold resolvable in R. apply andb_true_iff in R. destruct R as [_ R]. apply negb_true_iff in R.
+  repeat split; [apply hosted_names; exact I | exact R].
 Qed.
 
+Lemma hid_final cfg h n : zmem n (hid (final cfg h)) = hidden h n.
+Proof. exact (i_hid _ _ _ _ (inv_final cfg h) n). Qed.
+
+(* an accepted retire publishes Retiring and tells exactly the hosted services that can be
+   resolved at that moment *)
 Lemma retire_tells_all cfg h o :
   is_retire_cmd o = true -> reply_of (obs_at cfg h o) = ROk ->
-  evs_of (obs_at cfg h o) = [EPub Retiring] /\ sends_of (obs_at cfg h o) = retire_sends cfg /\
-  forall n, hosted cfg n = true -> In (n, KRetire) (sends_of (obs_at cfg h o)).
+  evs_of (obs_at cfg h o) = [EPub Retiring] /\
+  sends_of (obs_at cfg h o) = retire_sends cfg (final cfg h) /\
+  (forall n, hosted cfg n = true -> hidden h n = false -> In (n, KRetire) (sends_of (obs_at cfg h o))) /\
+  (forall x, In x (sends_of (obs_at cfg h o)) ->
+             snd x = KRetire /\ hosted cfg (fst x) = true /\ hidden h (fst x) = false).
 Proof.
   intros R A. destruct (retire_guard cfg h o R A) as [_ D].
   rewrite (obs_at_retire _ _ _ R) in *. unfold do_retire in *.
-  assert (T : forall n, hosted cfg n = true -> In (n, KRetire) (retire_sends cfg)).
-  { intros n H. apply in_retire_sends; [apply hosted_names; exact H|].
-    specialize (D n H). unfold declared in D. apply andb_true_iff in D. apply answers_ok_present. tauto. }
+  assert (T : forall n, hosted cfg n = true -> hidden h n = false ->
+                        In (n, KRetire) (retire_sends cfg (final cfg h))).
+  { intros n H Hd. apply in_retire_sends; [apply hosted_names; exact H|].
+    specialize (D n H). unfold declared in D. apply andb_true_iff in D.
+    unfold resolvable. rewrite hid_final, Hd, (answers_ok_present cfg n); [reflexivity | tauto]. }
+  assert (O : forall x, In x (retire_sends cfg (final cfg h)) ->
+                        snd x = KRetire /\ hosted cfg (fst x) = true /\ hidden h (fst x) = false).
+  { intros x I. rewrite <- (hid_final cfg h). apply retire_sends_only. exact I. }
   destruct (nst (final cfg h)); try discriminate; destruct (sup (final cfg h)); try discriminate; simpl; auto.
 Qed.
 
@@ -638,7 +735,7 @@ Lemma step_stops cfg s o :
   stops_ob (snd (step cfg s o)) =
   if is_exit_cmd o && is_ok (reply_of (snd (step cfg s o))) then 1%nat else 0%nat.
 Proof.
-  destruct o as [c| |k|k sc|k|succ]; simpl.
+  destruct o as [c| |k|k sc|k|succ|k|k]; simpl.
   - destruct c; simpl; try reflexivity; unfold do_retire, do_exit;
       destruct (nst s); try reflexivity; destruct (sup s); reflexivity.
   - destruct (query_list cfg s (akeys (svcs s))). reflexivity.
@@ -648,6 +745,8 @@ Proof.
   - destruct (service_retired_evs s k) as [E|E];
       destruct (service_retired s k) as [s1 evs]; simpl in *; subst; reflexivity.
   - destruct (pend s); [reflexivity|]. destruct succ; reflexivity.
+  - reflexivity.
+  - reflexivity.
 Qed.
 
 Lemma stops_accepted cfg h : forall s,
@@ -737,7 +836,7 @@ Lemma unknown_service_noop cfg h o :
   final cfg (h ++ [o]) = final cfg h /\ evs_of (obs_at cfg h o) = [] /\ sends_of (obs_at cfg h o) = [].
 Proof.
   intro U. rewrite final_snoc. unfold obs_at.
-  destruct o as [c| |k|k sc|k|succ]; simpl in U; try discriminate;
+  destruct o as [c| |k|k sc|k|succ|k|k]; simpl in U; try discriminate;
     apply negb_true_iff in U; pose proof (services_view cfg h k) as G; rewrite U in G; simpl.
   - unfold query_one. rewrite G. simpl. auto.
   - destruct sc; simpl; [|auto]. unfold service_retired. rewrite G. simpl. auto.
@@ -747,7 +846,7 @@ Qed.
 (* ---------------------------------------------------------------- the monitor accepts the model *)
 Lemma step_names_state cfg s o : names_state (nst s) (reply_of (snd (step cfg s o))) = true.
 Proof.
-  destruct o as [c| |k|k sc|k|succ]; simpl.
+  destruct o as [c| |k|k sc|k|succ|k|k]; simpl.
   - destruct c; simpl; unfold do_retire, do_exit; try apply nstate_eqb_refl; try reflexivity;
       destruct (nst s); try destruct (sup s); reflexivity.
   - destruct (query_list cfg s (akeys (svcs s))). reflexivity.
@@ -755,33 +854,49 @@ Proof.
   - destruct sc; [|reflexivity]. destruct (service_retired s k). reflexivity.
   - destruct (service_retired s k). reflexivity.
   - destruct (pend s); [reflexivity|]. destruct succ; reflexivity.
+  - reflexivity.
+  - reflexivity.
 Qed.
 
 Lemma query_one_sends cfg s k x :
-  In x (snd (query_one cfg s k)) -> x = (k, KQuery) /\ present cfg k = true.
+  In x (snd (query_one cfg s k)) -> x = (k, KQuery) /\ resolvable cfg s k = true.
 Proof.
   unfold query_one. destruct (aget k (svcs s)) as [[st sp]|]; [|contradiction].
-  destruct (present cfg k); [|contradiction].
+  destruct (resolvable cfg s k); [|contradiction].
   destruct (answers_ok cfg k); simpl; intros [<-|[]]; auto.
 Qed.
 
 Lemma query_list_sends cfg l : forall s x,
-  In x (snd (query_list cfg s l)) -> snd x = KQuery /\ present cfg (fst x) = true /\ In (fst x) l.
+  In x (snd (query_list cfg s l)) ->
+  snd x = KQuery /\ resolvable cfg s (fst x) = true /\ In (fst x) l.
 Proof.
   induction l as [|k r IH]; intros s x; simpl; [contradiction|].
-  pose proof (query_one_sends cfg s k x) as Q. destruct (query_one cfg s k) as [s1 o1].
+  pose proof (query_one_sends cfg s k x) as Q.
+  assert (Hd : hid (fst (query_one cfg s k)) = hid s).
+  { unfold query_one. destruct (aget k (svcs s)) as [[st sp]|]; [|reflexivity].
+    destruct (resolvable cfg s k); [|reflexivity]. destruct (answers_ok cfg k); reflexivity. }
+  destruct (query_one cfg s k) as [s1 o1].
   specialize (IH s1 x). destruct (query_list cfg s1 r) as [s2 o2]. simpl in *.
   rewrite in_app_iff. intros [I|I].
   - destruct (Q I) as [-> P]. simpl. auto.
-  - destruct (IH I) as [A [B C]]. auto.
+  - destruct (IH I) as [A [B C]]. unfold resolvable in *. rewrite Hd in B. auto.
 Qed.
 
-Lemma told_retire_sends cfg :
-  (forall n, hosted cfg n = true -> present cfg n = true) -> told cfg (retire_sends cfg) = true.
+Lemma resolvable_final cfg h n :
+  resolvable cfg (final cfg h) n = true -> hosted cfg n = true /\ hidden h n = false.
 Proof.
-  intro P. unfold told. apply forallb_forall. intros n I. apply existsb_exists.
+  unfold resolvable. rewrite hid_final. intro R. apply andb_true_iff in R. destruct R as [P H].
+  apply negb_true_iff in H. split; [apply present_hosted; exact P | exact H].
+Qed.
+
+Lemma told_sends cfg h sends :
+  (forall n, hosted cfg n = true -> hidden h n = false -> In (n, KRetire) sends) ->
+  told cfg h sends = true.
+Proof.
+  intro T. unfold told. apply forallb_forall. intros n I.
+  destruct (hidden h n) eqn:Hd; [reflexivity|]. simpl. apply existsb_exists.
   exists (n, KRetire). split; [|simpl; rewrite Z.eqb_refl; reflexivity].
-  apply in_retire_sends; [exact I|]. apply P. apply hosted_names. exact I.
+  apply T; [apply hosted_names; exact I | exact Hd].
 Qed.
 
 Lemma check_op_model cfg h o :
@@ -789,20 +904,20 @@ Lemma check_op_model cfg h o :
            (sends_of (obs_at cfg h o)) = true.
 Proof.
   rewrite <- state_published. unfold obs_at.
-  destruct o as [c| |k|k sc|k|succ].
+  destruct o as [c| |k|k sc|k|succ|k|k].
   - destruct (is_ok (reply_of (snd (step cfg (final cfg h) (OCmd c))))) eqn:Ok.
     + assert (A : reply_of (obs_at cfg h (OCmd c)) = ROk).
       { unfold obs_at. destruct (reply_of _); try discriminate. reflexivity. }
       unfold check_op. rewrite Ok.
       destruct (is_retire_cmd (OCmd c)) eqn:R.
-      * destruct (retire_guard cfg h _ R A) as [St D]. destruct (retire_tells_all cfg h _ R A) as [E [Sn _]].
-        unfold obs_at in E, Sn. rewrite E, Sn. rewrite <- state_published in St.
+      * destruct (retire_guard cfg h _ R A) as [St D].
+        destruct (retire_tells_all cfg h _ R A) as [E [_ [T O]]].
+        unfold obs_at in E, T, O. rewrite E. rewrite <- state_published in St.
         rewrite !andb_true_iff. repeat split.
         -- destruct St as [->| ->]; reflexivity.
         -- apply all_declared_spec. exact D.
-        -- apply told_retire_sends. intros n H. specialize (D n H). unfold declared in D.
-           apply andb_true_iff in D. apply answers_ok_present. tauto.
-        -- apply forallb_forall. intros x I. destruct (retire_sends_only cfg x I) as [-> ->]. reflexivity.
+        -- apply told_sends. exact T.
+        -- apply forallb_forall. intros x I. destruct (O x I) as [-> [-> ->]]. reflexivity.
       * destruct (is_exit_cmd (OCmd c)) eqn:E.
         -- destruct (exit_guard cfg h _ E) as [G1 G2]. destruct (G2 A) as [Ev Sn].
            apply G1 in A. rewrite <- state_published in A. unfold obs_at in Ev, Sn.
@@ -815,14 +930,26 @@ Proof.
   - simpl. pose proof (query_list_sends cfg (akeys (svcs (final cfg h))) (final cfg h)) as Q.
     destruct (query_list cfg (final cfg h) (akeys (svcs (final cfg h)))) as [s1 snds]. simpl in *.
     apply forallb_forall. intros x I. destruct (Q x I) as [-> [P _]].
-    rewrite (present_hosted _ _ P). reflexivity.
+    destruct (resolvable_final _ _ _ P) as [-> ->]. reflexivity.
   - simpl. pose proof (query_one_sends cfg (final cfg h) k) as Q.
     destruct (query_one cfg (final cfg h) k) as [s1 snds]. simpl in *.
     apply forallb_forall. intros x I. destruct (Q x I) as [-> P]. simpl.
-    rewrite (present_hosted _ _ P), Z.eqb_refl. reflexivity.
+    destruct (resolvable_final _ _ _ P) as [-> ->]. rewrite Z.eqb_refl. reflexivity.
   - simpl. destruct sc; [|reflexivity]. destruct (service_retired (final cfg h) k). reflexivity.
   - simpl. destruct (service_retired (final cfg h) k). reflexivity.
   - simpl. destruct (pend (final cfg h)); [reflexivity|]. destruct succ; reflexivity.
+  - reflexivity.
+  - reflexivity.
+Qed.
+
+(* hiding / showing a service changes what GetService answers and nothing else *)
+Lemma hide_show_frame cfg h o :
+  (exists n, o = OHide n \/ o = OShow n) ->
+  nst (final cfg (h ++ [o])) = nst (final cfg h) /\ svcs (final cfg (h ++ [o])) = svcs (final cfg h) /\
+  sup (final cfg (h ++ [o])) = sup (final cfg h) /\ pend (final cfg (h ++ [o])) = pend (final cfg h) /\
+  obs_at cfg h o = Ob RNone [] [].
+Proof.
+  intros [n [->| ->]]; rewrite final_snoc; unfold obs_at; simpl; auto.
 Qed.
 
 Lemma check_model cfg h o : check cfg h (run cfg h) o (obs_at cfg h o) = true.
@@ -860,3 +987,16 @@ Qed.
 
 Lemma holds_model cfg h : holds cfg h (run cfg h) = true.
 Proof. exact (holds_from_model cfg h []). Qed.
+
+(* a hosted service that has not itself reported retired is never booked as retired - whether
+   or not it could be resolved when retire was sent - and keeps the node below Retired *)
+Lemma unreported_not_retired cfg h n :
+  hosted cfg n = true -> reported h n = false ->
+  rank (last_pub (run cfg h)) < 3 /\
+  aget n (svcs (final cfg h)) = Some (Working, declared cfg h n).
+Proof.
+  intros H R. split.
+  - destruct (Z.lt_ge_cases (rank (last_pub (run cfg h))) 3) as [L|G]; [exact L|].
+    apply retired_iff in G. destruct G as [_ G]. rewrite (G n H) in R. discriminate.
+  - rewrite services_view, H, R. reflexivity.
+Qed.
